@@ -1,5 +1,5 @@
 /-
-Helper lemmas for C15 (`Props/C15.lean`): the bit-mask alignment identity, the arithmetic of
+Helper lemmas and specification vocabulary for C15 (`Props/C15.lean`): the bit-mask alignment identity, the arithmetic of
 `computeSizes`, memory frame lemmas, and the symbolic execution of the `enable_streaming`
 model on a fault-free conforming device.  Kernel-only proofs (no `bv_decide`).
 -/
@@ -111,6 +111,55 @@ theorem computeSizes_ok (p : Profile) (e L P T : Nat) (he : e ≤ 31)
   simp only [Res.bind_ok, Res.pure_eq, Nat.mod_eq_of_lt hcnt,
     Nat.mod_eq_of_lt (Nat.lt_of_le_of_lt hf1le hts2)]
   by_cases h0 : L = 0 <;> by_cases h1 : T = 0 <;> simp [h0, h1, hl, ht]
+
+/-- hypotheses of the arithmetic theorems: alignment `2^e` with `e ≤ 31`, aligned leader/trailer
+fit `u32`, payload below `2^32` transfers -/
+structure ArithScope (e L P T : Nat) : Prop where
+  expLe : e ≤ 31
+  leaderFits : L + (2 ^ e - 1) < 2 ^ 32
+  trailerFits : T + (2 ^ e - 1) < 2 ^ 32
+  payloadFits : P < 2 ^ 32 * roundUp (2 ^ e) 65536
+
+theorem expectedSizes_cover (e L P T : Nat) :
+    L ≤ (expectedSizes e L P T).maxLeader ∧ T ≤ (expectedSizes e L P T).maxTrailer ∧
+    P ≤ (expectedSizes e L P T).transferSize * (expectedSizes e L P T).transferCount +
+        (expectedSizes e L P T).final1 + (expectedSizes e L P T).final2 := by
+  have hpos : 0 < 2 ^ e := Nat.two_pow_pos e
+  simp only [expectedSizes]
+  refine ⟨?_, ?_, ?_⟩
+  · split
+    · omega
+    · exact roundUp_ge _ _ hpos
+  · split
+    · omega
+    · exact roundUp_ge _ _ hpos
+  · have h1 := Nat.div_add_mod P (roundUp (2 ^ e) 65536)
+    have h2 := roundUp_ge (2 ^ e) (P % roundUp (2 ^ e) 65536) hpos
+    omega
+
+theorem expectedSizes_aligned (e L P T : Nat) :
+    2 ^ e ∣ (expectedSizes e L P T).transferSize ∧ 2 ^ e ∣ (expectedSizes e L P T).final1 ∧
+    2 ^ e ∣ (expectedSizes e L P T).final2 ∧ 2 ^ e ∣ (expectedSizes e L P T).maxLeader ∧
+    2 ^ e ∣ (expectedSizes e L P T).maxTrailer := by
+  simp only [expectedSizes]
+  refine ⟨roundUp_dvd _ _, roundUp_dvd _ _, Nat.dvd_zero _, ?_, ?_⟩ <;> split <;> exact roundUp_dvd _ _
+
+theorem expectedSizes_fit32 (e L P T : Nat) (h : ArithScope e L P T) :
+    (expectedSizes e L P T).transferSize < 2 ^ 32 ∧ (expectedSizes e L P T).transferCount < 2 ^ 32 ∧
+    (expectedSizes e L P T).final1 < 2 ^ 32 ∧ (expectedSizes e L P T).final2 < 2 ^ 32 ∧
+    (expectedSizes e L P T).maxLeader < 2 ^ 32 ∧ (expectedSizes e L P T).maxTrailer < 2 ^ 32 := by
+  have hpos : 0 < 2 ^ e := Nat.two_pow_pos e
+  obtain ⟨hts1, hts2⟩ := ts_bounds e h.expLe
+  have hr : P % roundUp (2 ^ e) 65536 < roundUp (2 ^ e) 65536 := Nat.mod_lt _ (by omega)
+  have hf1le := roundUp_le_of_lt_dvd (2 ^ e) _ _ hpos hr (roundUp_dvd (2 ^ e) 65536)
+  have hcnt : P / roundUp (2 ^ e) 65536 < 2 ^ 32 := by
+    rw [Nat.div_lt_iff_lt_mul (by omega)]; exact h.payloadFits
+  have hl := roundUp_lt (2 ^ e) L hpos
+  have ht := roundUp_lt (2 ^ e) T hpos
+  have := h.leaderFits
+  have := h.trailerFits
+  simp only [expectedSizes]
+  refine ⟨hts2, hcnt, by omega, by omega, ?_, ?_⟩ <;> split <;> omega
 
 /-! ## Memory frame lemmas and fault-free execution -/
 
@@ -317,6 +366,11 @@ structure InScope (m : Mem) (s e : Nat) : Prop where
   leaderFits : regVal m s REQUIRED_LEADER_SIZE 4 + (2 ^ e - 1) < 2 ^ 32
   trailerFits : regVal m s REQUIRED_TRAILER_SIZE 4 + (2 ^ e - 1) < 2 ^ 32
   payloadFits : regVal m s REQUIRED_PAYLOAD_SIZE 8 < 2 ^ 32 * roundUp (2 ^ e) 65536
+
+theorem InScope.arith {m : Mem} {s e : Nat} (h : InScope m s e) :
+    ArithScope e (regVal m s REQUIRED_LEADER_SIZE 4) (regVal m s REQUIRED_PAYLOAD_SIZE 8)
+      (regVal m s REQUIRED_TRAILER_SIZE 4) :=
+  ⟨h.expLe, h.leaderFits, h.trailerFits, h.payloadFits⟩
 
 def programmedSizes (m : Mem) (s e : Nat) : Sizes :=
   expectedSizes e (regVal m s REQUIRED_LEADER_SIZE 4) (regVal m s REQUIRED_PAYLOAD_SIZE 8)
@@ -568,5 +622,370 @@ theorem fromControl_ok (m : Mem) (sb s : Nat) (log c1 c2) (h : Bootstrap m sb s)
   rw [M.bind_ok _ _ _ _ _ (readReg_ok 0 ABRM_MAXIMUM_DEVICE_RESPONSE_TIME 4 m _ c1 c2 (by decide)
     (by decide) a3)]
   rfl
+
+/-! ## Arbitrary devices and fault schedules -/
+
+/-- the access modified the device image such that the stream-enable bit (bit 0 of the low byte
+of SI_CONTROL) of the SIRM at `s` is set afterwards -/
+def Access.enables (s : Nat) : Access → Prop
+  | .w addr data _ true => addr ≤ s + SI_CONTROL ∧ ∃ b, data[s + SI_CONTROL - addr]? = some b ∧ b.toNat % 2 = 1
+  | _ => False
+
+/-- the access modified the low byte of SI_CONTROL -/
+def Access.touches (s : Nat) : Access → Prop
+  | .w addr data _ true => addr ≤ s + SI_CONTROL ∧ s + SI_CONTROL < addr + data.length
+  | _ => False
+
+/-- the device image after the applied writes of a log segment -/
+def replay : List Access → Mem → Mem
+  | [], m => m
+  | .w a d _ true :: rest, m => replay rest (m.write a d)
+  | _ :: rest, m => replay rest m
+
+theorem replay_append (l1 l2 : List Access) (m : Mem) : replay (l1 ++ l2) m = replay l2 (replay l1 m) := by
+  induction l1 generalizing m with
+  | nil => rfl
+  | cons a l ih =>
+    cases a with
+    | r _ _ _ => simpa [replay] using ih m
+    | w a d ok ap => cases ap <;> simp [replay, ih]
+
+/-- the host saw the access succeed -/
+def Access.succeeded : Access → Bool
+  | .r _ _ ok => ok
+  | .w _ _ ok _ => ok
+
+/-- `x` only appends to the access log, every appended access satisfies `P`, the image changes
+exactly by the applied writes among them, and unless `x` returns `Err` every access succeeded
+(a failed access always surfaces as `Err`: never `Ok`, never a panic). -/
+def Ext (P : Access → Prop) {α : Type} (x : M α) : Prop :=
+  ∀ st, ∃ new, (x st).2.dev.log = st.dev.log ++ new ∧ (x st).2.dev.mem = replay new st.dev.mem ∧
+    (∀ a ∈ new, P a) ∧ ((∀ e, (x st).1 ≠ .err e) → ∀ a ∈ new, a.succeeded = true)
+
+theorem Ext.nil {P : Access → Prop} {α : Type} (x : M α) (h : ∀ st, (x st).2.dev = st.dev) : Ext P x := by
+  intro st; exact ⟨[], by simp [h], by simp [h, replay], by simp, by simp⟩
+
+theorem Ext.pure {P : Access → Prop} {α : Type} (a : α) : Ext P (pure a : M α) := Ext.nil _ (fun _ => rfl)
+theorem Ext.lift {P : Access → Prop} {α : Type} (r : R α) : Ext P (M.lift r) := Ext.nil _ (fun _ => rfl)
+theorem Ext.fail {P : Access → Prop} {α : Type} (e : Err) : Ext P (M.fail e : M α) := Ext.nil _ (fun _ => rfl)
+theorem Ext.get {P : Access → Prop} : Ext P M.get := Ext.nil _ (fun _ => rfl)
+theorem Ext.setSbrm {P : Access → Prop} (x) : Ext P (setSbrmCache x) := Ext.nil _ (fun _ => rfl)
+theorem Ext.setSirm {P : Access → Prop} (x) : Ext P (setSirmCache x) := Ext.nil _ (fun _ => rfl)
+
+theorem Ext.bind {P : Access → Prop} {α β : Type} {x : M α} {f : α → M β}
+    (hx : Ext P x) (hf : ∀ a, Ext P (f a)) : Ext P (x >>= f) := by
+  intro st
+  obtain ⟨n1, h1, h2, h3, h4⟩ := hx st
+  rw [M.bind_eq]
+  cases hxs : x st with
+  | mk r st' =>
+    rw [hxs] at h1 h2 h4
+    have h1' : st'.dev.log = st.dev.log ++ n1 := h1
+    have h2' : st'.dev.mem = replay n1 st.dev.mem := h2
+    cases r with
+    | ok a =>
+      obtain ⟨n2, g1, g2, g3, g4⟩ := hf a st'
+      refine ⟨n1 ++ n2, ?_, ?_, ?_, ?_⟩
+      · rw [g1, h1', List.append_assoc]
+      · rw [g2, h2', replay_append]
+      · intro a ha
+        rcases List.mem_append.mp ha with h | h
+        · exact h3 a h
+        · exact g3 a h
+      · intro hok a ha
+        rcases List.mem_append.mp ha with h | h
+        · exact h4 (by simp) a h
+        · exact g4 hok a h
+    | err e => exact ⟨n1, h1, h2, h3, fun h => absurd rfl (h e)⟩
+    | panic => exact ⟨n1, h1, h2, h3, fun _ => h4 (by simp)⟩
+
+theorem Ext.ite {P : Access → Prop} {α : Type} (c : Prop) [Decidable c] {x y : M α}
+    (hx : Ext P x) (hy : Ext P y) : Ext P (if c then x else y) := by
+  split <;> assumption
+
+theorem Ext.devRead {P : Access → Prop} (a n : Nat) (h : ∀ ok, P (.r a n ok)) : Ext P (devRead a n) := by
+  intro st
+  simp only [CamVerif.Streaming.devRead, Dev.read]
+  cases popFault st.dev.faults with
+  | mk f rest =>
+    cases f with
+    | some f => exact ⟨[.r a n false], rfl, rfl, by simp [h], fun h => absurd rfl (h _)⟩
+    | none =>
+      simp only []
+      split
+      · exact ⟨[.r a n true], rfl, rfl, by simp [h], by simp [Access.succeeded]⟩
+      · exact ⟨[.r a n false], rfl, rfl, by simp [h], fun h => absurd rfl (h _)⟩
+
+theorem Ext.devWrite {P : Access → Prop} (a : Nat) (d : Bytes) (h : ∀ ok ap, P (.w a d ok ap)) :
+    Ext P (devWrite a d) := by
+  intro st
+  simp only [CamVerif.Streaming.devWrite, Dev.write]
+  cases popFault st.dev.faults with
+  | mk f rest =>
+    cases f with
+    | some f =>
+      simp only []
+      split
+      · exact ⟨[.w a d false true], rfl, rfl, by simp [h], fun h => absurd rfl (h _)⟩
+      · exact ⟨[.w a d false false], rfl, rfl, by simp [h], fun h => absurd rfl (h _)⟩
+    | none =>
+      simp only []
+      split
+      · exact ⟨[.w a d true true], rfl, rfl, by simp [h], by simp [Access.succeeded]⟩
+      · exact ⟨[.w a d false false], rfl, rfl, by simp [h], fun h => absurd rfl (h _)⟩
+
+theorem Ext.readReg {P : Access → Prop} (hr : ∀ a n ok, P (.r a n ok)) (base off len : Nat) :
+    Ext P (readReg base off len) := by
+  unfold CamVerif.Streaming.readReg
+  exact Ext.bind (Ext.lift _) fun a => Ext.bind (Ext.lift _) fun _ =>
+    Ext.bind (Ext.devRead a len (hr a len)) fun _ => Ext.pure _
+
+theorem Ext.lift_bind {P : Access → Prop} {α β : Type} (r : R α) (f : α → M β)
+    (h : ∀ a, r = .ok a → Ext P (f a)) : Ext P (M.lift r >>= f) := by
+  cases r with
+  | ok a => exact h a rfl
+  | err e => exact Ext.nil _ (fun _ => rfl)
+  | panic => exact Ext.nil _ (fun _ => rfl)
+
+theorem regAddr_eq {base off a : Nat} (h : regAddr base off = .ok a) : a = base + off := by
+  simp only [regAddr] at h
+  split at h
+  · exact (Res.ok.inj h).symm
+  · cases h
+
+theorem Ext.writeReg32 {P : Access → Prop} (base off v : Nat)
+    (hw : ∀ ok ap, P (.w (base + off) (toLE 4 v) ok ap)) : Ext P (writeReg32 base off v) := by
+  unfold CamVerif.Streaming.writeReg32
+  refine Ext.lift_bind _ _ fun a ha => ?_
+  rw [regAddr_eq ha]
+  exact Ext.bind (Ext.lift _) fun _ => Ext.devWrite _ _ hw
+
+
+/-- `Quiet s a`: the access does not set the stream-enable bit -/
+abbrev Quiet (s : Nat) (a : Access) : Prop := ¬ a.enables s
+
+theorem quiet_read (s a n : Nat) (ok : Bool) : Quiet s (.r a n ok) := fun h => h
+
+theorem quiet_write_above (s off : Nat) (d : Bytes) (ok ap : Bool) (h : SI_CONTROL < off) :
+    Quiet s (.w (s + off) d ok ap) := by
+  cases ap with
+  | false => exact fun h => h
+  | true => intro ⟨h1, _⟩; omega
+
+theorem quiet_write_even (s v : Nat) (ok ap : Bool) (h : v % 2 = 0) :
+    Quiet s (.w (s + SI_CONTROL) (toLE 4 v) ok ap) := by
+  cases ap with
+  | false => exact fun h => h
+  | true =>
+    intro ⟨_, b, hb, hodd⟩
+    simp only [Nat.sub_self, toLE, List.getElem?_cons_zero, Option.some.injEq] at hb
+    subst hb
+    simp only [UInt8.toNat_ofNat'] at hodd
+    omega
+
+theorem Ext.writeAll {P : Access → Prop} (s : Nat) (ws : List (Nat × Nat))
+    (h : ∀ w ∈ ws, ∀ ok ap, P (.w (s + w.1) (toLE 4 w.2) ok ap)) : Ext P (writeAll s ws) := by
+  induction ws with
+  | nil => exact Ext.pure _
+  | cons w ws ih =>
+    obtain ⟨off, v⟩ := w
+    unfold CamVerif.Streaming.writeAll
+    exact Ext.bind (Ext.writeReg32 s off v (h (off, v) (by simp))) fun _ =>
+      ih (fun w hw => h w (by simp [hw]))
+
+theorem readInputs_quiet (s : Nat) : Ext (Quiet s) (readInputs s) := by
+  have hr : ∀ a n ok, Quiet s (.r a n ok) := quiet_read s
+  have rest : Ext (Quiet s) (do
+      let info ← readReg s SI_INFO 4
+      let align ← M.lift (payloadSizeAlignment info)
+      let reqLeader ← readReg s REQUIRED_LEADER_SIZE 4
+      let reqPayload ← readReg s REQUIRED_PAYLOAD_SIZE 8
+      let reqTrailer ← readReg s REQUIRED_TRAILER_SIZE 4
+      pure (⟨align, reqLeader, reqPayload, reqTrailer⟩ : Inputs)) :=
+    Ext.bind (Ext.readReg hr _ _ _) fun _ => Ext.bind (Ext.lift _) fun _ =>
+      Ext.bind (Ext.readReg hr _ _ _) fun _ => Ext.bind (Ext.readReg hr _ _ _) fun _ =>
+        Ext.bind (Ext.readReg hr _ _ _) fun _ => Ext.pure _
+  unfold readInputs
+  refine Ext.bind (Ext.readReg hr _ _ _) fun ctrl => ?_
+  by_cases hc : ctrl % 2 = 1
+  · simp only [hc, if_true]
+    exact Ext.bind (Ext.writeReg32 _ _ _ (fun ok ap => quiet_write_even s 0 ok ap rfl)) fun _ => rest
+  · simp only [hc, if_false]
+    exact rest
+
+theorem prepareAt_quiet (p : Profile) (s : Nat) : Ext (Quiet s) (prepareAt p s) := by
+  unfold prepareAt
+  refine Ext.bind (readInputs_quiet s) fun i => ?_
+  refine Ext.bind (Ext.lift _) fun sz => ?_
+  apply Ext.writeAll
+  intro w hw ok ap
+  simp only [sizeWrites, List.mem_cons, List.not_mem_nil, or_false] at hw
+  rcases hw with rfl | rfl | rfl | rfl | rfl | rfl <;>
+    exact quiet_write_above s _ _ ok ap (by simp [SI_CONTROL, PAYLOAD_TRANSFER_SIZE_REG,
+      PAYLOAD_TRANSFER_COUNT, PAYLOAD_FINAL_TRANSFER1_SIZE, PAYLOAD_FINAL_TRANSFER2_SIZE,
+      MAXIMUM_LEADER_SIZE, MAXIMUM_TRAILER_SIZE])
+
+/-- `ControlHandle::sirm` only reads. -/
+def Access.isRead : Access → Prop
+  | .r _ _ _ => True
+  | _ => False
+
+theorem getSbrm_reads : Ext Access.isRead getSbrm := by
+  have hr : ∀ a n ok, Access.isRead (.r a n ok) := fun _ _ _ => trivial
+  unfold getSbrm
+  refine Ext.bind Ext.get fun st => ?_
+  cases st.sbrm with
+  | some x => exact Ext.pure _
+  | none =>
+    exact Ext.bind (Ext.readReg hr _ _ _) fun _ => Ext.bind (Ext.readReg hr _ _ _) fun _ =>
+      Ext.bind (Ext.setSbrm _) fun _ => Ext.pure _
+
+theorem getSirm_reads : Ext Access.isRead getSirm := by
+  have hr : ∀ a n ok, Access.isRead (.r a n ok) := fun _ _ _ => trivial
+  unfold getSirm
+  refine Ext.bind Ext.get fun st => ?_
+  cases st.sirm with
+  | some x => exact Ext.pure _
+  | none =>
+    refine Ext.bind getSbrm_reads fun x => ?_
+    obtain ⟨sb, cap⟩ := x
+    exact Ext.ite (cap % 2 = 1) (Ext.bind (Ext.readReg hr _ _ _) fun _ => Ext.bind (Ext.setSirm _) fun _ => Ext.pure _)
+      (Ext.fail _)
+
+theorem replay_reads (l : List Access) (m : Mem) (h : ∀ a ∈ l, a.isRead) : replay l m = m := by
+  induction l with
+  | nil => rfl
+  | cons a l ih =>
+    cases a with
+    | r _ _ _ => exact ih (fun a ha => h a (by simp [ha]))
+    | w a d ok ap => exact (h (.w a d ok ap) (by simp)).elim
+
+
+theorem Dev.write_cases (d : Dev) (a : Nat) (data : Bytes) :
+    ∃ ok ap, (d.write a data).2.log = d.log ++ [.w a data ok ap] ∧
+      (d.write a data).2.mem = replay [.w a data ok ap] d.mem ∧
+      (ok = true ↔ (d.write a data).1 = .ok ()) ∧ (ok = true → ap = true) ∧
+      (ok = false → ∃ e, (d.write a data).1 = .err e) := by
+  simp only [Dev.write]
+  cases popFault d.faults with
+  | mk f rest =>
+    cases f with
+    | some f =>
+      simp only []
+      split
+      · exact ⟨false, true, rfl, rfl, by simp, by simp, fun _ => ⟨_, rfl⟩⟩
+      · exact ⟨false, false, rfl, rfl, by simp, by simp, fun _ => ⟨_, rfl⟩⟩
+    | none =>
+      simp only []
+      split
+      · exact ⟨true, true, rfl, rfl, by simp, by simp, by simp⟩
+      · exact ⟨false, false, rfl, rfl, by simp, by simp, fun _ => ⟨_, rfl⟩⟩
+
+/-- one `Sirm::write_register` on an arbitrary device: refused before any access, or exactly one
+write command whose `ok` flag is the call's result -/
+theorem writeReg32_cases (base off v : Nat) (st : St) :
+    ((writeReg32 base off v st).2.dev = st.dev ∧ (writeReg32 base off v st).1 ≠ .ok ()) ∨
+    ∃ ok ap, (writeReg32 base off v st).2.dev.log = st.dev.log ++ [.w (base + off) (toLE 4 v) ok ap] ∧
+      (writeReg32 base off v st).2.dev.mem = replay [.w (base + off) (toLE 4 v) ok ap] st.dev.mem ∧
+      (ok = true ↔ (writeReg32 base off v st).1 = .ok ()) ∧ (ok = true → ap = true) ∧
+      (ok = false → ∃ e, (writeReg32 base off v st).1 = .err e) := by
+  unfold writeReg32
+  cases h1 : regAddr base off with
+  | err e => left; exact ⟨rfl, by simp [M.bind_eq, M.lift]⟩
+  | panic => left; exact ⟨rfl, by simp [M.bind_eq, M.lift]⟩
+  | ok a =>
+    rw [M.lift_bind_ok _ _ _ _ rfl, regAddr_eq h1]
+    cases h2 : verifyRange (base + off) 4 with
+    | err e => left; exact ⟨rfl, by simp [M.bind_eq, M.lift]⟩
+    | panic => left; exact ⟨rfl, by simp [M.bind_eq, M.lift]⟩
+    | ok u =>
+      right
+      rw [M.lift_bind_ok _ _ _ _ rfl]
+      obtain ⟨ok, ap, g1, g2, g3, g4, g5⟩ := Dev.write_cases st.dev (base + off) (toLE 4 v)
+      refine ⟨ok, ap, g1, g2, ?_, g4, ?_⟩
+      · rw [g3]
+        simp only [devWrite]
+      · intro h
+        obtain ⟨e, he⟩ := g5 h
+        exact ⟨e, by simp only [devWrite]; exact he⟩
+
+/-- **Every** run of `enable_streaming` (after the SIRM address is resolved), on any device image
+and under any fault schedule: the accesses split into a prefix that never sets the enable bit
+and at most one final access, the write `SI_CONTROL := 1`, whose success flag is the result of
+the call.  The image changes exactly by the applied writes. -/
+theorem enableAt_any (p : Profile) (s : Nat) (st : St) :
+    ∃ quiet last, (enableAt p s st).2.dev.log = st.dev.log ++ (quiet ++ last) ∧
+      (enableAt p s st).2.dev.mem = replay (quiet ++ last) st.dev.mem ∧
+      (∀ a ∈ quiet, Quiet s a) ∧
+      ((∀ e, (enableAt p s st).1 ≠ .err e) → ∀ a ∈ quiet, a.succeeded = true) ∧
+      ((last = [] ∧ (enableAt p s st).1 ≠ .ok ()) ∨
+       ∃ ok ap, last = [.w (s + SI_CONTROL) (toLE 4 1) ok ap] ∧
+         (ok = true ↔ (enableAt p s st).1 = .ok ()) ∧ (ok = true → ap = true) ∧
+         (ok = false → ∃ e, (enableAt p s st).1 = .err e)) := by
+  obtain ⟨n1, h1, h2, h3, h4⟩ := prepareAt_quiet p s st
+  unfold enableAt
+  rw [M.bind_eq]
+  cases hp : prepareAt p s st with
+  | mk r st' =>
+    rw [hp] at h1 h2 h4
+    have h1' : st'.dev.log = st.dev.log ++ n1 := h1
+    have h2' : st'.dev.mem = replay n1 st.dev.mem := h2
+    cases r with
+    | err e => exact ⟨n1, [], by simpa using h1', by simpa using h2', h3, fun h => absurd rfl (h e), Or.inl ⟨rfl, by simp⟩⟩
+    | panic => exact ⟨n1, [], by simpa using h1', by simpa using h2', h3, fun _ => h4 (by simp), Or.inl ⟨rfl, by simp⟩⟩
+    | ok u =>
+      simp only []
+      rcases writeReg32_cases s SI_CONTROL 1 st' with ⟨g1, g2⟩ | ⟨ok, ap, g1, g2, g3, g4, g5⟩
+      · exact ⟨n1, [], by simp [g1, h1'], by simp [g1, h2'], h3, fun _ => h4 (by simp), Or.inl ⟨rfl, g2⟩⟩
+      · refine ⟨n1, [.w (s + SI_CONTROL) (toLE 4 1) ok ap], ?_, ?_, h3, fun _ => h4 (by simp), Or.inr ⟨ok, ap, rfl, g3, g4, g5⟩⟩
+        · rw [g1, h1', List.append_assoc]
+        · rw [g2, h2', replay_append]
+
+/-! ### The enable bit in the image -/
+
+theorem enabledIn_iff_byte (m : Mem) (s : Nat) :
+    enabledIn m s ↔ (m.byte (s + SI_CONTROL)).toNat % 2 = 1 := by
+  simp only [enabledIn, regVal, Mem.read, List.range, List.range.loop, List.map, fromLE, Nat.add_zero]
+  omega
+
+theorem replay_enable_bit (s : Nat) (new : List Access) (m : Mem) (hq : ∀ a ∈ new, Quiet s a)
+    (h : ((replay new m).byte (s + SI_CONTROL)).toNat % 2 = 1) :
+    (m.byte (s + SI_CONTROL)).toNat % 2 = 1 ∧ ∀ a ∈ new, ¬ a.touches s := by
+  induction new generalizing m with
+  | nil => exact ⟨h, by simp⟩
+  | cons a l ih =>
+    have hl : ∀ a ∈ l, Quiet s a := fun a ha => hq a (by simp [ha])
+    cases a with
+    | r a n ok =>
+      obtain ⟨g1, g2⟩ := ih m hl h
+      exact ⟨g1, fun a ha => by
+        rcases List.mem_cons.mp ha with rfl | ha
+        · exact fun h => h
+        · exact g2 a ha⟩
+    | w addr d ok ap =>
+      cases ap with
+      | false =>
+        obtain ⟨g1, g2⟩ := ih m hl h
+        exact ⟨g1, fun a ha => by
+          rcases List.mem_cons.mp ha with rfl | ha
+          · exact fun h => h
+          · exact g2 a ha⟩
+      | true =>
+        obtain ⟨g1, g2⟩ := ih (m.write addr d) hl h
+        have hnt : ¬ (Access.w addr d ok true).touches s := by
+          intro ⟨t1, t2⟩
+          apply hq (.w addr d ok true) (by simp)
+          refine ⟨t1, d[s + SI_CONTROL - addr]'(by omega), by simp, ?_⟩
+          have := Mem.byte_write_of_mem m addr d (s + SI_CONTROL - addr) (by omega)
+          rw [show addr + (s + SI_CONTROL - addr) = s + SI_CONTROL by omega] at this
+          rw [← this]; exact g1
+        refine ⟨?_, fun a ha => by
+          rcases List.mem_cons.mp ha with rfl | ha
+          · exact hnt
+          · exact g2 a ha⟩
+        rw [Mem.byte_write_of_not_mem] at g1
+        · exact g1
+        · simp only [Access.touches] at hnt
+          omega
 
 end CamVerif.Streaming
